@@ -85,6 +85,14 @@ def run_impl(script: str, payload, timeout=900, extra_env=None, args=()):
     return json.loads(lines[-1][len("@@RESULT@@"):])
 
 
+def ensure_native():
+    """Rebuild the Rust extension from /repo/rust (incremental) into the overlay package used by all implementation runs."""
+    with Lock("native"):
+        rc, out, err = sh([str(VERIF / "tools" / "build_native.sh")], timeout=1500)
+    if rc:
+        raise Broken("the Rust extension under /repo/rust no longer builds", (out + err)[-3000:])
+
+
 class Lock:
     def __init__(self, name="coq"):
         BUILD.mkdir(exist_ok=True)
